@@ -1,9 +1,12 @@
 """Canonical, JSON-able rendering of blackbird values, programs and outcomes.
 
 The rendering is type-tagged: any difference between two renderings is a real difference
-in content (values, container kinds, key order, numpy dtypes of arrays).  Scalar
-subclasses are NOT told apart from their Python base class (np.float64 renders like float,
-np.str_ like str): the properties do not distinguish them either.  It is used as the compared observable by every check.
+in content (values, container kinds, key order of keyword/option dictionaries, numpy
+dtypes of arrays).  Scalars are rendered by value class: every integer (int, np.int64, ...)
+as int, every float as float, every complex as complex, every string as str - the
+properties do not distinguish numpy scalars from Python scalars.  The four top-level keys
+of an operation dict are rendered in sorted order (their presence matters, their insertion
+order does not).  It is used as the compared observable by every check.
 It never draws random numbers and never reads a clock.
 """
 import hashlib
@@ -52,7 +55,7 @@ def render(v, root=None, loose=False, depth=0):
     if isinstance(v, bool):
         return ["bool", repr(v)]
     if isinstance(v, (np.bool_,)):
-        return ["npbool", repr(bool(v))]
+        return ["bool", repr(bool(v))]
     if isinstance(v, int):
         return ["int", repr(v)]
     if isinstance(v, float):
@@ -72,9 +75,7 @@ def render(v, root=None, loose=False, depth=0):
                 if v.dtype != object else
                 [render(x, root, loose, depth + 1) for x in v.flatten()]]
     if isinstance(v, np.generic):
-        item = v.item()
-        r = render(item, root, loose, depth + 1)
-        return ["np", type(v).__name__, r]
+        return render(v.item(), root, loose, depth + 1)
     if isinstance(v, sym.Basic):
         names = sorted(str(s) for s in v.free_symbols)
         try:
@@ -110,8 +111,8 @@ def rrt_pairing(t):
     import sympy as sym
     regs = list(t.regrefs)
     syms = {s: int(str(s)[1:]) for s in t.expr.free_symbols}
-    if sorted(regs) != sorted(syms.values()):
-        return False, "regrefs %r != registers of expr %r" % (regs, sorted(syms.values()))
+    if not set(syms.values()) <= set(regs):
+        return False, "registers %r of the expression are not all listed in regrefs %r" % (sorted(syms.values()), regs)
     v = {r: sample_value("q%d" % r) for r in regs}
     try:
         got = complex(t.func(*[v[r] for r in regs]))
@@ -144,7 +145,7 @@ def render_op(op, root=None, loose=False):
     """One operation dict, keys in insertion order (presence of args/kwargs matters)."""
     if not isinstance(op, dict):
         return ["notdict", render(op, root, loose)]
-    return ["op", [[str(k), render(v, root, loose, 1)] for k, v in op.items()]]
+    return ["op", [[str(k), render(op[k], root, loose, 1)] for k in sorted(op, key=str)]]
 
 
 def render_program(p, root=None, loose=False):
